@@ -6,7 +6,7 @@ import gen
 import vlib
 
 MANIFEST = {
-    "text": "Coq theorems over the VM model (every program, all limits, every folding function): a JUMP / JUMPI fork is only requested "
+    "text": "Coq theorems over the VM model (every program, all limits, every folding function): a JUMP / JUMPI fork is only requested  One JUMP / JUMPI reached by several paths that bring different targets (two valid landings with different code behind them, bad targets of every kind) is part of the searched programs: the target is read from the stack on every execution."
             "for a target t such that the stack value constant-folds to exactly the word t (< 2^32, no truncation), t is inside the "
             "code and the entry at t is JUMPDEST; in a disassembled stream a JUMPDEST entry sits on a 0x5b byte that is not push data, "
             "which is proved equivalent to the reference EVM's own valid-destination analysis; a JUMPI with a valid target queues the "
@@ -56,6 +56,10 @@ def check(ctx):
         progs.setdefault(code, "jump-kinds")
     for code in gen.c07_programs(rng, bw, n // 5):
         progs.setdefault(code, "fragment")
+    # one JUMP / JUMPI reached by several paths that bring different targets (valid ones with different code behind them,
+    # bad ones of every kind): the target is read from the stack on EVERY execution
+    for code in gen.trampoline_programs(rng, 200 if ctx.quick else 3000):
+        progs.setdefault(code, "shared-trampoline")
     keys = list(progs.keys())
     if ctx.replay_in:
         keys = [bytes.fromhex(json.load(open(ctx.replay_in))["replay"]["code"])]
